@@ -34,6 +34,9 @@ fn main() {
 	let r = match args.get(1).map(|s| s.as_str()) {
 		Some("exec") => exec(&args[2], &args[3], &args[4]),
 		Some("gen") => gen(&args[2], args[3].parse().expect("seed"), args[4].parse().expect("n"), &args[5]),
+		// the seeds of the fault model (field / line structure) for TLC, and the sandboxed child running the parsers
+		Some("seeds") => seeds(&args[2], &args[3]),
+		Some("fault-child") => drivers::c16::child_main(),
 		_ => { eprintln!("usage: vharness exec|gen ..."); std::process::exit(2) },
 	};
 	if let Err(e) = r { eprintln!("vharness: tool error: {e:#}"); std::process::exit(2); }
@@ -55,6 +58,16 @@ fn exec(prop: &str, inp: &str, out: &str) -> anyhow::Result<()> {
 			},
 		};
 		v.as_object_mut().expect("record").insert("got".into(), got);
+		serde_json::to_writer(&mut w, &v)?;
+		w.write_all(b"\n")?;
+	}
+	w.flush()?;
+	Ok(())
+}
+
+fn seeds(tier: &str, out: &str) -> anyhow::Result<()> {
+	let mut w = BufWriter::new(std::fs::File::create(out)?);
+	for v in drivers::c16::seeds_json(tier)? {
 		serde_json::to_writer(&mut w, &v)?;
 		w.write_all(b"\n")?;
 	}
